@@ -14,22 +14,48 @@ ASSUMPTIONS = ["a widened f64 value counts as 'of the table' if it is a table en
                "double-double tolerance 1e-24 cond kappa relative (f64 shortcuts give >= 1e-17)"]
 
 
+def _strip_comments(src):
+    import re
+    src = re.sub(r"//[^\n]*", lambda m: " " * len(m.group(0)), src)
+    return re.sub(r"/\*.*?\*/", lambda m: " " * len(m.group(0)), src, flags=re.S)
+
+
+def _enclosing(src, idx):
+    """headers of the brace blocks enclosing position idx, innermost last (header = text between the previous ; { } and the {)"""
+    stack = []
+    for i, ch in enumerate(src[:idx]):
+        if ch == "{":
+            j = max(src.rfind(";", 0, i), src.rfind("{", 0, i), src.rfind("}", 0, i))
+            stack.append(" ".join(src[j + 1:i].split()))
+        elif ch == "}" and stack:
+            stack.pop()
+    return stack
+
+
 def narrowing_sites():
-    """source audit: every `.to_f64()` call site outside float.rs, with the token of its line (translator-style tie to the source)"""
+    """source audit, structural: every `.to_f64()` call site outside float.rs is classified by WHERE it stands -
+    'draw' (inside gamma.rs::inverse_gamma_lr, the wrapper of the Gamma quantile), 'debug' (inside a block guarded by
+    `print_debug_info`), or 'other:<file>:<function>'. Renames and reformatting do not change the classification."""
     import os, re
     sites = []
     for root, _, files in os.walk("/repo/src"):
         for f in sorted(files):
-            if f.endswith(".rs") and f != "float.rs" and "verif" not in root:
-                for line in open(os.path.join(root, f), errors="replace"):
-                    code = line.split("//")[0]
-                    if ".to_f64()" in code:
-                        sites.append((f, "log" if "logger.write" in code or "x.to_f64()).collect_vec" in code else code.strip()))
+            if not f.endswith(".rs") or f == "float.rs" or "verif" in root:
+                continue
+            src = _strip_comments(open(os.path.join(root, f), errors="replace").read())
+            cut = src.find("#[cfg(test)]")
+            body = src if cut < 0 else src[:cut]
+            for m in re.finditer(r"\.to_f64\(\)", body):
+                heads = _enclosing(body, m.start())
+                fns = [re.search(r"\bfn\s+(\w+)", h).group(1) for h in heads if re.search(r"\bfn\s+\w+", h)]
+                fn = fns[-1] if fns else "?"
+                if any("print_debug_info" in h for h in heads):
+                    sites.append("debug")
+                elif f == "gamma.rs" and fn == "inverse_gamma_lr":
+                    sites.append("draw")
+                else:
+                    sites.append(f"other:{f}:{fn}")
     return sites
-
-
-# what the unchanged source contains: the three arguments of the Gamma draw, and the debug-log writes
-EXPECTED_SITES = [("gamma.rs", "a.to_f64(),"), ("gamma.rs", "p.to_f64(),"), ("gamma.rs", "epsilon_tolerance.to_f64(),")] + [("sampling.rs", "log")] * 7
 
 
 def short_dyadic(v):
@@ -72,10 +98,13 @@ def ddf(p):
 
 def run(ctx):
     sites = narrowing_sites()
-    ctx.extra["to_f64_call_sites"] = [list(t) for t in sites]
-    if sorted(sites) != sorted(EXPECTED_SITES):
-        ctx.mismatch("source audit: the set of `.to_f64()` call sites differs from the modelled one (Gamma draw arguments + debug log only)",
-                     None, [list(t) for t in sites], [list(t) for t in EXPECTED_SITES])
+    ctx.extra["to_f64_call_sites"] = {k: sites.count(k) for k in sorted(set(sites))}
+    foreign = sorted(set(x for x in sites if x.startswith("other:")))
+    if foreign or sites.count("draw") != 3:
+        # the model narrows exactly the three arguments of the draw (C19.narrowing_only_in_draw); anything else is outside it
+        ctx.mismatch("source audit: `.to_f64()` call sites outside the Gamma draw wrapper and outside `print_debug_info` blocks "
+                     "(or a draw wrapper that does not narrow exactly its three scalar arguments)",
+                     None, {k: sites.count(k) for k in sorted(set(sites))}, {"draw": 3, "debug": "any"})
     ss = S.generate(ctx, 14 if ctx.quick else 100, 2 if ctx.quick else 4, max_e=6, max_loops=4, routings_per_graph=1, kinds=("uniform",))
     for s in ss:
         s["req"] = S.sample_request(s["case"], s["routing"], s["table"], s["xs"], debug=False, meta=True)
